@@ -71,6 +71,7 @@ func (v *Verifier) substr(c *Ctx, s, lo, hi Term) Term {
 		v.substrAx = true
 		c.assert("(forall ((s! Str) (a! Int) (b! Int)) (! (=> (and (<= 0 a!) (<= a! b!) (<= b! (slen s!))) (= (slen (ssub s! a! b!)) (- b! a!))) :pattern ((ssub s! a! b!))))", "substring length")
 		c.assert("(forall ((s! Str) (a! Int) (b! Int) (i! Int)) (! (=> (and (<= 0 a!) (<= a! b!) (<= b! (slen s!)) (<= 0 i!) (< i! (- b! a!))) (= (sbyte (ssub s! a! b!) i!) (sbyte s! (+ a! i!)))) :pattern ((sbyte (ssub s! a! b!) i!))))", "substring bytes")
+		c.assert("(forall ((s! Str) (a! Int) (b! Int) (k! Int)) (! (=> (and (<= 0 a!) (<= a! k!) (< k! b!) (<= b! (slen s!))) (= (sbyte (ssub s! a! b!) (- k! a!)) (sbyte s! k!))) :pattern ((ssub s! a! b!) (sbyte s! k!))))", "substring bytes (seen from the whole string)")
 		c.assert("(forall ((s! Str) (a! Int) (i! Int)) (! (=> (and (<= 0 a!) (<= a! (slen s!)) (<= 0 i!)) (and (= (srune (ssub s! a! (slen s!)) i!) (srune s! (+ a! i!))) (= (swidth (ssub s! a! (slen s!)) i!) (swidth s! (+ a! i!))))) :pattern ((srune (ssub s! a! (slen s!)) i!))))", "suffix decode")
 	}
 	return app(f, s, lo, hi)
